@@ -34,6 +34,9 @@ CHECKS = {
  "C08": ("model_checking", BFS + "; fix-point over (owned, head-room, size, capacity, attached) of two Buffers",
          "every reachable combination of ownership, head-room, size and capacity (sizes up to 6/9) with every operation incl. attach mixed with owning operations; terminator and bounds decided on every transition (ASan)",
          "byte values are data only (canonical-state argument); self arguments excluded", "DESIGN.md §4 C08"),
+ "C12": ("model_checking", "stateless exhaustive DFS over choice sequences (top-level steps x re-entrant reactions inside slots) on the real implementation with a lockstep reference model",
+         "every program of up to 4 (5) top-level steps with up to 3 re-entrant reactions (connect/disconnect/emit/destroy inside slots, nesting to 3-4) over 1-2 emitters, 1-2 signals, 2-3 listeners, 1-2 slots; every invocation, every returning emission and both sides' bookkeeping are decided against the model, destroyed objects by ASan",
+         "bounded numbers of objects, steps and reactions", "DESIGN.md §4 C12"),
  "C15": ("exploration", "exhaustive enumeration of token strings / value trees / symbol strings on the real parser, serialiser and comment stripper under ASan",
          "every token string up to 5 (6) tokens over a 32-token alphabet, every value tree up to 4 (5) nodes, every stripComments input up to 8 (10) symbols; totality, bounds, error position, round trip and comment removal are decided on each",
          "alphabets and sizes are bounded; Variant == decides tree equality", "DESIGN.md §4 C15"),
